@@ -7,7 +7,8 @@ import judge
 EXTRA_COQ_FILES = ('GenFacts/SchemaOK.v',)
 RULE = ('seeded random programs: all 21 object types x attribute subsets x value domains (ints across code ranges, floats incl. '
         'non-finite and signed zero, strings 0..300 (some >16383) chars, aware/naive datetimes and date strings, enum members and '
-        'free strings, single/multi/nested values, units as str or Unit member) x route (keyword, dict, AttrSetup, later .value/.units). '
+        'free strings, single/multi/nested values, units as str or Unit member) x route (keyword, dict, AttrSetup, later .value/.units, '
+        're-assignment with a value of another kind (int<->float, text<->object) after a first write, then a second write). '
         'Distinct by (object type, attribute label). Each decoded attribute is compared with the assignment; never-assigned '
         'attributes must be absent except the documented write-time defaults.')
 ASSUMPTIONS = ['int()/float()/strptime meaning of strings and datetime arithmetic are CPython (trusted)',
@@ -20,14 +21,13 @@ def run(ctx):
     rng = ctx.rng('progs')
     n = 70 if ctx.tier == 'quick' else 800
     for k in range(n):
-        prog, flavor = apistream.gen_program(rng, flavor=rng.choice(['valid', 'valid', 'assign', 'assign', 'queries']))
+        prog, flavor = apistream.gen_program(rng, flavor=rng.choice(['valid', 'valid', 'assign', 'assign', 'queries', 'rewrite', 'rewrite']))
         r = apistream.run_one(ctx, prog, 'K-api')
         ctx.count('K-api-programs', key=k)
         if not r['files']:
             continue
-        exp_files = judge.expected_objects(prog, r['outs'])
-        objs = exp_files[-1] if exp_files else {}
         step, data, vrl, ident = r['files'][-1]
+        objs = judge.expected_at(prog, r['outs'], step)
         d = apistream.decode(ctx, data, vrl, ident)
         det = {'program': apistream.strip_private(prog)}
         if not d.ok:
